@@ -1,6 +1,8 @@
 PROP = {
     "num": 4,
     "runs": [{"tag": "c04", "bin": "c04"},
+             # optimised build of the same cases: no debug assertions, no overflow checks, inlined unsafe paths
+             {"tag": "c04rel", "bin": "c04", "profile": "release", "tiers": ["thorough"]},
              # a SOURCE iterator that panics inside from_iter / try_from_iter / the boxed forms, at every poll index
              {"tag": "c04src", "bin": "c07", "args": ["--only", "panics"], "num": 7}],
     "mismatch_is_failing": True,
